@@ -19,7 +19,49 @@ pub(crate) struct Index<K> {
     pub paths: DbPaths,
     pub state: Arc<RwLock<IndexState<K>>>,
     pub wal: Mutex<WalManager>,
-    pub pending_intents: Mutex<HashMap<K, BlobHash>>,
+    pub pending_intents: Mutex<PendingIntents<K>>,
+}
+
+/// Blobs that in-flight commits are about to reference.
+///
+/// `by_key` holds the most recent intent per key (what the map always was). An intent that
+/// was displaced there by a newer one on the same key is still in flight, so protection
+/// from deletion is counted per hash over *all* live intents, not derived from `by_key`.
+pub(crate) struct PendingIntents<K> {
+    by_key: HashMap<K, BlobHash>,
+    live: HashMap<BlobHash, usize>,
+}
+
+impl<K> PendingIntents<K> {
+    fn new() -> Self {
+        Self { by_key: HashMap::default(), live: HashMap::default() }
+    }
+
+    /// Returns true while some in-flight commit is about to reference `hash`.
+    pub(crate) fn protects(&self, hash: &BlobHash) -> bool {
+        self.live.contains_key(hash)
+    }
+
+    fn acquire(&mut self, hash: BlobHash) {
+        *self.live.entry(hash).or_insert(0) += 1;
+    }
+
+    fn release(&mut self, hash: &BlobHash) {
+        if let Some(count) = self.live.get_mut(hash) {
+            *count -= 1;
+            if *count == 0 {
+                self.live.remove(hash);
+            }
+        }
+    }
+}
+
+impl<K> std::ops::Deref for PendingIntents<K> {
+    type Target = HashMap<K, BlobHash>;
+
+    fn deref(&self) -> &Self::Target {
+        &self.by_key
+    }
 }
 
 /// A read-only view of the index state.
@@ -216,15 +258,16 @@ where
                 &self.index.pending_intents,
             );
             let mut intents = self.index.pending_intents.lock();
+            intents.release(&self.hash);
 
-            if let Some(current_hash) = intents.get(&self.key)
+            if let Some(current_hash) = intents.by_key.get(&self.key)
                 && *current_hash == self.hash
             {
-                intents.remove(&self.key);
+                intents.by_key.remove(&self.key);
 
                 // If we had replaced an existing intent, restore it
                 if let Some(replaced_hash) = self.replaced_hash {
-                    intents.insert(self.key.clone(), replaced_hash);
+                    intents.by_key.insert(self.key.clone(), replaced_hash);
                 }
             }
         }
@@ -263,7 +306,7 @@ where
             paths,
             state,
             wal: Mutex::new(wal_manager),
-            pending_intents: Mutex::new(HashMap::default()),
+            pending_intents: Mutex::new(PendingIntents::new()),
         };
 
         // Only checkpoint after replay if we actually replayed something
@@ -301,10 +344,11 @@ where
         let mut intents = self.pending_intents.lock();
 
         // Check if there was a previous intent for this key
-        let replaced_hash = intents.get(&key).copied();
+        let replaced_hash = intents.by_key.get(&key).copied();
 
         // Insert the new intent
-        intents.insert(key.clone(), meta.blob_hash);
+        intents.by_key.insert(key.clone(), meta.blob_hash);
+        intents.acquire(meta.blob_hash);
 
         Ok(IntentGuard {
             index: self,
@@ -344,11 +388,15 @@ where
             (hashes, rolled)
         };
 
-        intents.remove(&key);
+        // This commit's intent is fulfilled: the index references the blob now. Only drop the
+        // per-key entry if it is ours; a newer intent on the same key stays registered.
+        if intents.by_key.get(&key) == Some(&hash) {
+            intents.by_key.remove(&key);
+        }
+        intents.release(&hash);
 
         // Filter out any unreferenced hashes that are still referenced by other intents
-        unreferenced_from_op
-            .retain(|hash| !intents.values().any(|intent_hash| intent_hash == hash));
+        unreferenced_from_op.retain(|hash| !intents.protects(hash));
 
         // Delete blobs BEFORE any checkpoint
         if !unreferenced_from_op.is_empty() {
@@ -397,8 +445,7 @@ where
         };
 
         // Remove any unreferenced hashes that are still referenced by intents
-        unreferenced_from_op
-            .retain(|hash| !intents.values().any(|intent_hash| intent_hash == hash));
+        unreferenced_from_op.retain(|hash| !intents.protects(hash));
 
         // Delete blobs BEFORE any checkpoint
         if !unreferenced_from_op.is_empty() {
